@@ -497,7 +497,11 @@ func cmdCheck(args []string) {
 		fmt.Println(l)
 	}
 	wall := time.Since(t0).Seconds()
-	fmt.Printf("govc: property %s tier %s: %d functions, %d obligations, %d discharged, %d known findings, %d violations, %.1fs\n", *prop, *tier, len(results), len(all), discharged, len(knownMatched), violations, wall)
+	extra := ""
+	if retried > 0 {
+		extra = fmt.Sprintf(" (%d discharged only by the second-opinion run)", retried)
+	}
+	fmt.Printf("govc: property %s tier %s: %d functions, %d obligations, %d discharged, %d known findings, %d violations, %.1fs%s\n", *prop, *tier, len(results), len(all), discharged, len(knownMatched), violations, wall, extra)
 	if !*noEvidence {
 		var assumptions []string
 		var ext []string
